@@ -103,6 +103,35 @@ def publish_batch_one_tx(chk, prog):
             intr={A + 'WakePublishListeners': intr_wake_log})
 
 
+def prune_service_runonce(chk, prog):
+    """the background jobs do not go through DoTx: services/prune-common.go runOnce handles its own transaction"""
+    SVC = 'go.6river.tech/mmmbbb/services.'
+
+    def harness(ex, ob):
+        db = reldb.sym_db(ex, prog, {'Topic': 1, 'Subscription': 1, 'Message': 1, 'Delivery': 2}, exists=True)
+        client = reldb.make_client(ex, db)
+        ex.env['fault'] = fault_hook(ex)
+        ex.env['retry_after_fault'] = False
+        which = ex.choose(2)
+        ctor, typ = [('NewPruneCompletedDeliveries', 'PruneCompletedDeliveries'), ('NewPruneExpiredDeliveries', 'PruneExpiredDeliveries')][which]
+        p = tr.params(ex, 'PruneCommonParams', MinAge=0, MaxDelete=10)
+        act = ex.call_named(A + ctor, [p])
+        svc = ex.new_ptr(ex.new_struct(SVC + 'pruneService', client=client, action=Iface('*' + A + typ, act), logger=Opaque('logger')))
+        pre = db.snapshot()
+        n, err = ex.call_named('(*' + SVC + 'pruneService).runOnce', [svc, stdlib.new_context(ex)])
+        fs = ex.env['fault_state']
+        if fs['fired'] is not None:
+            ob.verify(ex, 'failed-job-run-is-reported', err is not None)
+            for en in reldb.ENTITIES:
+                ob.verify(ex, 'failed-job-run-persists-nothing:' + en, table_same(ex, pre[en], db.t[en]))
+            ob.verify(ex, 'failed-job-run-wakes-nobody', not any(x[0] == 'wake-publish' for x in ex.events))
+        else:
+            ob.verify(ex, 'fault-free-job-run-succeeds', err is None)
+            ob.verify(ex, 'job-transaction-is-closed', all(t.state != 'open' for _, t in ex.env.get('txs', [])))
+    chk.run('prune-service:runOnce', prog, harness, bounds={'jobs': 'prune completed / expired deliveries', 'tables': '1 topic, 1 subscription, 1 message, 2 deliveries'},
+            setup=world.setup, max_paths=100000, intr={A + 'WakePublishListeners': intr_wake_log})
+
+
 if __name__ == '__main__':
     chk = Check('C09')
     prog = load_program()
@@ -123,6 +152,7 @@ if __name__ == '__main__':
             T.sizes_thorough = None
         run_transition(chk, prog, T, max_paths=400000, setup2=lambda xp: xp.intrinsics.__setitem__(A + 'WakePublishListeners', intr_wake_log))
     publish_batch_one_tx(chk, prog)
+    prune_service_runonce(chk, prog)
     chk.bounds = {'failing statement': 'any one of BEGIN, every SELECT/INSERT/UPDATE/DELETE, COMMIT (forked at each statement)', 'error kinds': 'driver error, context cancelled',
                   'tables': 'per obligation'}
     chk.assumptions += ['transaction contract of the store: Rollback (or a failed COMMIT) restores the state at BEGIN; a cancelled context makes database/sql roll back and a later Rollback return ErrTxDone',
